@@ -515,4 +515,54 @@ def runCaseAtomic (nk : Nat) (progs : List (List Op)) (sched : List Nat) : Strin
   let a := runAtomicSys nk progs sched
   ";".intercalate (a.2.reverse ++ [if allFinished a.1.threads then "end:ok" else "end:unfinished"])
 
+/-! ### the reverse proxy's two clients of the hosts pool (`requests` lines)
+
+* the per-HANDLER client: `Provision` takes one reference per static upstream (`provisionUpstream` → `fillHost` →
+  `hosts.LoadOrStore`), `Cleanup` gives them back;
+* the per-REQUEST client (`proxyLoopIteration` with a dynamic upstream source): every upstream the source returned
+  is provisioned — one reference each — and when the iteration returns each of THEM is given back
+  (`defer … hosts.Delete(upstream.String())` over the same slice).  Acquire and release are paired per element: a
+  request releases exactly what it took, whatever else its handler (or another handler) holds on the same address. -/
+
+/-- loading a handler with static upstreams `ks` -/
+def handlerLoadOps (ks : List Nat) : List Op := ks.map .lsp
+
+/-- one request whose dynamic source returned the addresses `ks` -/
+def requestOps (ks : List Nat) : List Op := ks.map .lsp ++ ks.map .cdel
+
+/-- run the next `n` operations of thread `t`, each to completion -/
+def runOps (nk : Nat) : Nat → Sys → Nat → Sys
+  | 0, y, _ => y
+  | n + 1, y, t => runOps nk n (stepOp nk 24 y t) t
+
+/-- state of a run whose client calls are groups of operations: the system, the sizes of the groups each thread
+    still has to run, the tokens -/
+abbrev GroupAcc := Sys × List (List Nat) × List String
+
+def groupStep (nk : Nat) (a : GroupAcc) (t : Nat) : GroupAcc :=
+  match a.2.1[t]? with
+  | some (n :: rest) =>
+    let y' := runOps nk n a.1 t
+    (y', a.2.1.set t rest, (toString t ++ ":k/" ++ showRefs y'.g nk) :: a.2.2)
+  | _ => (a.1, a.2.1, (toString t ++ ":-/" ++ showRefs a.1.g nk) :: a.2.2)
+
+def firstWithGroups : List (List Nat) → Nat → Option Nat
+  | [], _ => none
+  | g :: gs, i => if g.isEmpty then firstWithGroups gs (i + 1) else some i
+
+def drainGroups (nk : Nat) : Nat → GroupAcc → GroupAcc
+  | 0, a => a
+  | fuel + 1, a =>
+    match firstWithGroups a.2.1 0 with
+    | none => a
+    | some t => drainGroups nk fuel (groupStep nk a t)
+
+def runGroupsSys (nk : Nat) (progs : List (List (List Op))) (sched : List Nat) : GroupAcc :=
+  drainGroups nk ((progs.map List.length).sum + 1)
+    (sched.foldl (groupStep nk)
+      ({ g := G.init, threads := progs.map fun p => { prog := p.flatten } }, progs.map (fun p => p.map List.length), []))
+
+def runCaseGroups (nk : Nat) (progs : List (List (List Op))) (sched : List Nat) : String :=
+  ";".intercalate ((runGroupsSys nk progs sched).2.2.reverse ++ ["end:ok"])
+
 end CaddyModel.C04
